@@ -1,7 +1,7 @@
 from props import COMMON_TRUSTED
 
 SPEC = {
-    "translators": [],
+    "translators": ["tr_reader.py"],
     "harness": "c13",
     "cases": {"quick": 40000, "thorough": 1000000},
     "profiles": {"quick": ["debug", "release"], "thorough": ["debug", "release"]},
@@ -9,15 +9,29 @@ SPEC = {
         "hand-written model coq/Model/Normalize.v of Fixed/F2Dot14 arithmetic, default_normalize, "
         "SegmentMap::normalize and FvarTable::normalize, tied to the code by correspondence only "
         "(no translator: the code is control flow, not tables)",
-        "modelled, not verified: fvar/avar byte parsing (the harness synthesises well-formed tables; parsing is C01/C15 territory)",
+        "translators/tr_reader.py (regenerates coq/Gen/ReaderPrims.v, the unchecked reader primitives under Model/Reader.v on which "
+        "the fvar byte-level model Model/FvarTable.v is built, from src/binary/read.rs on every run)",
+        "hand-written model coq/Model/FvarTable.v of FvarTable::read / axes / axis_count / normalize / owned_tuple and of the tuple "
+        "variations::instance returns, tied to the code by correspondence only",
+        "modelled, not verified: avar byte parsing (the harness synthesises well-formed avar tables); the other tables "
+        "variations::instance reads (the harness supplies a complete small TrueType variable font around the fvar under test)",
     ],
     "assumptions": [
         "axis fields and user coordinates are i32 raw 16.16 values; avar pairs are i16 raw 2.14 values",
         "theorems about the linear map assume min <= default <= max (the property's quantifier); range and totality hold for any axis record",
     ],
-    "rule": "random fvar tables with 0-5 axes (sorted triples; degenerate min=default / default=max / all equal; "
+    "rule": "random fvar tables with 0-9 axes (sorted triples; degenerate min=default / default=max / all equal; "
             "unsorted malformed; extreme i32 spans), optional avar (valid monotone maps with -1/0/+1 knots, empty, "
             "arbitrary invalid, wrong number of maps), coordinates at min/default/max +-2 raw units, at avar knots "
-            "+-1, uniformly inside the range, extreme; tuple length sometimes wrong. distinct = distinct input lines; "
-            "histogram key = avar?-#axes-result kind",
+            "+-1, uniformly inside the range, extreme; tuple length wrong on purpose (one short, one long, empty, two long). "
+            "Five kinds: N canonical fvar through FvarTable::normalize (40%); F any fvar layout through "
+            "FvarTable::normalize (30%): axesArrayOffset 16..63, axisSize 20..79 (mostly > 20), 0-6 instance records of "
+            "any size, trailing bytes, and in 1/8 one header field off (version, offset < 16, axisSize < 20, axisCount "
+            "+-1/+2) or the table cut short; I the same tables inside a complete TrueType variable font through "
+            "variations::instance (15%, registered and private axis tags); S SegmentMap::normalize on raw 16.16 "
+            "values at / next to knots and anywhere (10%); O FvarTable::owned_tuple with right / off-by-one lengths (5%). "
+            "In 1/6 of the F and I cases the user tuple is named instance k of the table itself (records holding "
+            "min / default / max / midpoint of each axis, with or without postScriptNameID, sometimes too small or one "
+            "past the last). "
+            "distinct = distinct input lines; histogram key = kind-layout class-avar?-#axes-result kind",
 }
